@@ -102,6 +102,11 @@ def _task__setstate__(self: Task, state: dict[str, Any]) -> None:
     for key, value in state.items():
         value = immutable_param_value(key, value) if key in field_set else value
         object.__setattr__(self, key, value)
+    # Restore the attributes that are never pickled, as __post_init__ does.
+    object.__setattr__(self, 'context', None)
+    object.__setattr__(self, 'result_meta', None)
+    if self._lt.orig_post_init is not None:
+        self._lt.orig_post_init(self)
 
 
 def task(*args,
